@@ -451,7 +451,8 @@ fn auth_matrix() -> SimResult {
     for i in 0..n {
         // forced schedule enumerates the 9 combinations, then random ones
         let (ao, ai) = if i < 9 && choose(4) != 0 { (kinds[i % 3], kinds[i / 3]) } else { (kinds[choose(3)], kinds[choose(3)]) };
-        let with_peer = choose(3) != 0;
+        // expected peer id of the dial: none, the remote's, or (rarely) our own id
+        let with_peer = [0usize, 1, 1, 1, 1, 2][choose(6)];
         net::with_net(|nn| {
             nn.forced_auth.push_back(ao);
             nn.forced_auth.push_back(ai);
@@ -462,7 +463,14 @@ fn auth_matrix() -> SimResult {
                 _ => "auth_as_other_peer",
             });
         }
-        let opts = if with_peer { DialOpts::peer_id(b.peer).condition(PeerCondition::Always).addresses(vec![baddr.clone()]).build() } else { DialOpts::unknown_peer_id().address(baddr.clone()).build() };
+        let opts = match with_peer {
+            1 => DialOpts::peer_id(b.peer).condition(PeerCondition::Always).addresses(vec![baddr.clone()]).build(),
+            2 => {
+                probe("dial-expecting-own-peer-id");
+                DialOpts::peer_id(a.peer).condition(PeerCondition::Always).addresses(vec![baddr.clone()]).build()
+            }
+            _ => DialOpts::unknown_peer_id().address(baddr.clone()).build(),
+        };
         let id = opts.connection_id();
         let conn_before = net::conn_count();
         a.dial(opts).map_err(|e| violation!("C05/dial-refused", "{e:?}"))?;
@@ -472,6 +480,10 @@ fn auth_matrix() -> SimResult {
         let conn = conn_before;
         plan.push((id, conn, ao, ai, with_peer));
         note_val("combo", (ao as u64) * 3 + ai as u64 + 9 * with_peer as u64);
+        if with_peer == 2 {
+            // nothing else to interleave with a dial to "ourselves"
+            continue;
+        }
         // some ordinary traffic in between
         if choose(3) == 0 {
             let _ = a.swarm.borrow_mut().disconnect_peer_id(b.peer);
@@ -493,7 +505,12 @@ fn auth_matrix() -> SimResult {
             Ev::OutgoingError { id: x, kind, .. } if x == id => Some(kind.clone()),
             _ => None,
         });
-        let expect_out = if *with_peer && claimed_to_dialer != b.peer {
+        let expected = match *with_peer {
+            1 => Some(b.peer),
+            2 => Some(a.peer),
+            _ => None,
+        };
+        let expect_out = if expected.map(|e| claimed_to_dialer != e).unwrap_or(false) {
             "WrongPeerId".to_string()
         } else if claimed_to_dialer == a.peer {
             "LocalPeerId".to_string()
